@@ -43,6 +43,7 @@ type World struct {
 	impls       map[string][]*ssa.Function // interface method key -> implementations in package
 	addrTaken   map[string][]*ssa.Function // signature string -> functions used as values
 	pools       map[interface{}]*poolInfo
+	lockKinds   map[*ssa.Function]map[string]bool
 }
 
 func displayName(f *ssa.Function) string {
